@@ -249,3 +249,45 @@ pub fn qfresh(args: &[String]) -> String {
     }
     format!("{} || doc=same", out.join(" | "))
 }
+
+// qswitch <docA> <docB> <bindings> <n> <expr 1..n on A> <exprs on B...>: ONE context; the first n expressions are evaluated on
+// document A (their answers are not reported), then the others on document B with the same context.  The answers must be
+// those a fresh context gives on B (property C19: a context carries nothing from one query to the next, whatever the
+// earlier ones did and whichever document they looked at).
+pub fn qswitch(args: &[String]) -> String {
+    if args.len() < 5 {
+        return "bad-op".to_string();
+    }
+    let n: usize = args[3].parse().unwrap_or(0);
+    let parse = |t: &str| match XmlDocument::from_raw_with_context(t, xml_dom::Context::from_text_expanded(true)) {
+        Ok((rest, d)) if rest.is_empty() => Some(d),
+        _ => None,
+    };
+    let (a, b) = match (parse(&args[0]), parse(&args[1])) {
+        (Some(a), Some(b)) => (a, b),
+        _ => return "err:doc".to_string(),
+    };
+    let loc = Locator::new(&b);
+    let mut ctx = Context::default();
+    parse_bindings(&mut ctx, &args[2]);
+    let rest = &args[4..];
+    for ex in rest.iter().take(n) {
+        let _ = std::panic::catch_unwind(std::panic::AssertUnwindSafe(|| {
+            let _ = xml_xpath::query(a.clone(), ex.as_str(), &mut ctx);
+        }));
+    }
+    let mut out: Vec<String> = vec![];
+    for ex in rest.iter().skip(n) {
+        let r = std::panic::catch_unwind(std::panic::AssertUnwindSafe(|| {
+            match xml_xpath::query(b.clone(), ex.as_str(), &mut ctx) {
+                Ok(v) => show_value(&v, &loc),
+                Err(err) => format!("err:{}", err_class(&format!("{:?}", err))),
+            }
+        }));
+        out.push(match r {
+            Ok(s) => s,
+            Err(_) => "panic".to_string(),
+        });
+    }
+    format!("{} || doc=same", out.join(" | "))
+}
